@@ -137,7 +137,7 @@ func (jenny RawTypes) formatEnum(pkg string, object ast.Object) ([]byte, error) 
 			value.Name = "None"
 		}
 		values = append(values, EnumValue{
-			Name:  tools.UpperSnakeCase(value.Name),
+			Name:  formatEnumMemberName(value.Name),
 			Value: value.Value,
 		})
 	}
